@@ -1266,8 +1266,8 @@ trait RecordD {
             old(self).wf(), old(rset).wf(),
             n_records != Some(0usize),
         ensures
-            [C02,C03,C04,C05,C06|fastq.read_set.wf] final(self).wf() && final(self).f() == old(self).f() && final(rset).wf(),
-            [C02,C03,C04|fastq.read_set.ok] r matches Some(Ok(_)) ==> final(rset).n() >= 1 && final(self).buf_reader.errs() == old(self).buf_reader.errs()
+            [C03,C04,C05,C06|fastq.read_set.wf] final(self).wf() && final(self).f() == old(self).f() && final(rset).wf(),
+            [C03,C04|fastq.read_set.ok] r matches Some(Ok(_)) ==> final(rset).n() >= 1 && final(self).buf_reader.errs() == old(self).buf_reader.errs()
                 && old(self).state != State::Finished
                 && (n_records matches Some(m) ==> final(rset).n() <= m)
                 && (old(self).clean() && !old(self).poisoned() ==> ({
@@ -1285,14 +1285,14 @@ trait RecordD {
             [C09|fastq.read_set.plain_sets_grow_only_when_a_record_does_not_fit] n_records is None && old(self).clean() && !old(self).poisoned()
                 && final(self).buf_reader.cap() > old(self).buf_reader.cap() ==>
                 exists|j: int| 0 <= j && #[trigger] nofit(old(self).f(), gstart(old(self).f(), old(self).cursor(), j), old(self).buf_reader.cap() as int),
-            [C02,C03,C04,C06|fastq.read_set.none] r is None ==> final(self).buf_reader.errs() == old(self).buf_reader.errs() && final(self).state == State::Finished
+            [C03,C04,C06|fastq.read_set.none] r is None ==> final(self).buf_reader.errs() == old(self).buf_reader.errs() && final(self).state == State::Finished
                 && (old(self).state == State::Finished || old(self).poisoned() || !old(self).clean() || end_ok(old(self).f(), old(self).cursor())),
-            [C02,C03,C06,C17|fastq.read_set.err_terminal] r matches Some(Err(e)) ==>
+            [C03,C06,C17|fastq.read_set.err_terminal] r matches Some(Err(e)) ==>
                 (final(self).state == State::Finished || (old(self).state == State::New && final(self).state == State::New && e is Io)),
             [C14|fastq.read_set.err_io] r matches Some(Err(e)) ==> (match e {
                     Error::Io(x) => final(self).buf_reader.errs() == old(self).buf_reader.errs().push(x),
                     _ => final(self).buf_reader.errs() == old(self).buf_reader.errs() }),
-            [C02,C03,C04,C17|fastq.read_set.err_format] r matches Some(Err(e)) ==> (fmt_variant(e) ==> old(self).state != State::Finished
+            [C03,C04,C17|fastq.read_set.err_format] r matches Some(Err(e)) ==> (fmt_variant(e) ==> old(self).state != State::Finished
                 && (!old(self).poisoned() && old(self).clean() ==> exists|j: int| 0 <= j && run_ok(old(self).f(), old(self).cursor(), j)
                     && #[trigger] fmt_err(e, old(self).f(), gstart(old(self).f(), old(self).cursor(), j), true_line(old(self).f(), gstart(old(self).f(), old(self).cursor(), j))))),
 //@body_start
@@ -1308,16 +1308,16 @@ trait RecordD {
                 n_records matches Some(m) ==> rset.n() < m,
                 self.state != State::Finished && self.incomplete_pos is Some && rset.n() > 0 ==> !is_new,
             invariant
-                [C02,C03,C04,C05,C06|fastq.read_set.inv.state] self.rs_a(old(self), rset, is_new, n_records),
-                [C02,C03,C04,C05,C06|fastq.read_set.inv.positions_valid] self.rs_b(rset),
-                [C02,C03,C04|fastq.read_set.inv.records_are_the_next_k] self.rs_c(old(self), rset),
+                [C03,C04,C05,C06|fastq.read_set.inv.state] self.rs_a(old(self), rset, is_new, n_records),
+                [C03,C04,C05,C06|fastq.read_set.inv.positions_valid] self.rs_b(rset),
+                [C03,C04|fastq.read_set.inv.records_are_the_next_k] self.rs_c(old(self), rset),
                 n_records != Some(0usize), old(self).state != State::Finished,
                 [C09|fastq.read_set.inv.capacity] self.buf_reader.cap() >= old(self).buf_reader.cap() && (n_records is None ==> is_new)
                     && (n_records is None && old(self).clean() && !old(self).poisoned() && self.buf_reader.cap() > old(self).buf_reader.cap() ==>
                         0 <= grow_at && nofit(old(self).f(), gstart(old(self).f(), old(self).cursor(), grow_at), old(self).buf_reader.cap() as int)),
             ensures
-                [C02,C03,C04|fastq.read_set.loop_exit_nonempty] rset.n() >= 1,
-                [C02,C03,C04|fastq.read_set.loop_exit_exact_or_end] n_records matches Some(m) ==> rset.n() == m || self.state == State::Finished,
+                [C03,C04|fastq.read_set.loop_exit_nonempty] rset.n() >= 1,
+                [C03,C04|fastq.read_set.loop_exit_exact_or_end] n_records matches Some(m) ==> rset.n() == m || self.state == State::Finished,
             decreases
                 self.f().len() + 2 - self.gpos(),
                 (if self.incomplete_pos is Some { 0int } else { 1int }),
@@ -1395,7 +1395,7 @@ trait RecordD {
         requires
             old(self).wf(), old(rset).wf(),
         ensures
-            [C02,C03,C04|fastq.read_record_set.is_exact_none] final(self).wf() && final(rset).wf() && final(self).f() == old(self).f()
+            [C03,C04|fastq.read_record_set.is_exact_none] final(self).wf() && final(rset).wf() && final(self).f() == old(self).f()
                 && (r matches Some(Ok(_)) ==> final(rset).n() >= 1),
 //@end
 }
